@@ -43,14 +43,83 @@ from ._c04_util import (
 )
 from .c03 import BASE, BOUNDS, MAT, _report_orderings, check_quantity_truthiness, mk_excl, mk_proposal
 
-CALC = f"{MAT}:Matryoshka._calc_target_power"
+CALC_HINT = "_calc_target_power"
 CTP = f"{MAT}:Matryoshka.calculate_target_power"
 STAT = f"{MAT}:Matryoshka.get_status"
+BOUNDS_HINTS = {"clamp": "clamp_to_bounds", "adjust": "adjust_exclusion_bounds",
+                "overlap": "check_exclusion_bounds_overlap"}
+
+
+# ---------------------------------------------------------------------------------------------
+# anchors bound by role (the name is only a hint)
+# ---------------------------------------------------------------------------------------------
+def find_calc(prog: Program) -> Any:
+    """The target sweep: the method calculate_target_power hands (bucket, system bounds) to - a
+    helper of the same class, reached from calculate_target_power, with one top-level proposal loop."""
+    ct = prog.func(CTP)
+    cands = []
+    for h in reach(prog, ct)[1:]:
+        body = [x for x in h.node.body if isinstance(x, ast.For)]
+        if h.cls is ct.cls and len(body) == 1 and len(h.params) == 3:
+            cands.append(h)
+    named = [h for h in cands if h.name == CALC_HINT]
+    if named:
+        return named[0]
+    if len(cands) == 1:
+        return cands[0]
+    raise AnalysisError(f"{ct.qual}: no helper plays the role of the target sweep "
+                        f"({len(cands)} candidates with one proposal loop over (bucket, system bounds))")
+
+
+def bounds_fn(prog: Program, role: str) -> Any:
+    """clamp / adjust / overlap function of the _bounds module: by name, else by what it computes on a
+    probe without exclusion zone (clamp: 4 parameters; adjust returns the range, overlap two booleans)."""
+    mod = prog.module(BOUNDS)
+    if BOUNDS_HINTS[role] in mod.functions:
+        return mod.functions[BOUNDS_HINTS[role]]
+    found = []
+    for f in mod.functions.values():
+        if f.name.startswith("_") or len(f.params) != (4 if role == "clamp" else 3):
+            continue
+        if role == "clamp":
+            found.append(f)
+            continue
+        it = LinInterp(prog, mod)
+        it.frames = []
+        it.reset()
+        it.globals["__ZERO__"] = Atom("ZERO")
+        a, b = Atom("L"), Atom("U")
+        try:
+            res = it.call_func(f, [a, b, None], {})
+        except AnalysisError:
+            continue
+        if isinstance(res, tuple) and len(res) == 2:
+            if role == "adjust" and res[0] is a and res[1] is b:
+                found.append(f)
+            if role == "overlap" and res[0] is False and res[1] is False:
+                found.append(f)
+    if len(found) != 1:
+        raise AnalysisError(f"{BOUNDS}: no function plays the role '{role}' ({len(found)} candidates)")
+    return found[0]
+
+
+def report_cls(prog: Program) -> Any:
+    """The report record handed to actors: the class of _base_classes with `adjust_to_bounds`."""
+    cands = [c for c in prog.module(BASE).classes.values() if "adjust_to_bounds" in c.methods]
+    if len(cands) != 1:
+        raise AnalysisError(f"{BASE}: expected one class with adjust_to_bounds, found {len(cands)}")
+    return cands[0]
+
+
+def analysed_reach(run: Run, prog: Program, fn: Any) -> None:
+    """Register `fn` and the same-module helpers it reaches: the interpreters call into all of them."""
+    for h in reach(prog, fn):
+        run.analysed(h.qual)
 OWN = 5  # the requesting actor's priority in the abstract runs
 
 
 def calc_sweep(prog: Program) -> Sweep:
-    fn = prog.func(CALC)
+    fn = find_calc(prog)
     if len(fn.params) != 3:
         raise AnalysisError(f"{fn.qual}: expected (self, proposals, system_bounds)")
     sw = sweep_roles(prog, fn, 2, {fn.params[1]: []})
@@ -109,9 +178,9 @@ def _same(it: OrderInterp, a: Any, b: Any) -> bool:
 
 # ---------------------------------------------------------------------------------------------
 def check_keep(run: Run, prog: Program) -> None:
-    fn = prog.func(f"{BOUNDS}:adjust_exclusion_bounds")
-    run.analysed(fn.qual)
-    run.analysed(f"{BOUNDS}:check_exclusion_bounds_overlap")
+    fn = bounds_fn(prog, "adjust")
+    analysed_reach(run, prog, fn)
+    analysed_reach(run, prog, bounds_fn(prog, "overlap"))
     if len(fn.params) != 3:
         raise AnalysisError(f"{fn.qual}: expected (lower_bound, upper_bound, exclusion_bounds)")
     it = LinInterp(prog, prog.module(BOUNDS))
@@ -156,8 +225,8 @@ def check_keep(run: Run, prog: Program) -> None:
 def check_sib(run: Run, prog: Program) -> None:
     swc, sws = calc_sweep(prog), stat_sweep(prog)
     calc, stat = swc.fn, sws.fn
-    run.analysed(calc.qual)
-    run.analysed(stat.qual)
+    analysed_reach(run, prog, calc)
+    analysed_reach(run, prog, stat)
     prio = stat.params[2]
     stepc = step_function(swc, "step_calc", [swc.L, swc.U, STOPPED])
     steps = step_function(sws, "step_status", [sws.L, sws.U, STOPPED])
@@ -212,22 +281,34 @@ def check_sib(run: Run, prog: Program) -> None:
         raise AnalysisError(f"C04.SIB: only {len(outs)} abstract paths")
     run.extra_cov.setdefault("abstract_paths", {})["sweep_agreement"] = len(outs)
 
-    # ---- (b) priority cut: proposals at or below the actor's own priority do not restrict it.  The
-    # sweep is in descending priority order (C03.ORD), so "stops at" and "skips" coincide.
+    # ---- (b) priority cut: proposals at or below the actor's own priority do not restrict it: they
+    # are either never visited (filtered out of the loop's iterable) or leave the bounds untouched.
+    # The sweep is in descending priority order (C04.DESC), so "stops at" and "skips" coincide.
+    visit = synth("visited_by_status", list(sws.pro) + [ast.Assign(
+        targets=[ast.Name(id="_visit_order", ctx=ast.Store())], value=sws.loop.iter)], ["_visit_order"])
     for pp, what in ((OWN, "its own priority (an equal-priority peer)"), (OWN - 1, "a lower priority")):
         def make_cut(pp: int = pp) -> dict[str, Any]:
             state(pp)
-            return status_frame()
+            sysb, _incl, _excl = mk_system(it, "strict", keep_zero=True)
+            so = sws.self_obj()
+            assert so is not None
+            so.fields["_component_buckets"] = {"ids": [ctx["p"]]}
+            return {stat.params[0]: so, stat.params[1]: "ids", prio: OWN, sws.sys_param: sysb}
 
         def post_cut(res: Any, what: str = what) -> Any:
-            L2, U2, _stop = res
+            seq = res[0] if isinstance(res, tuple) and len(res) == 1 else None
+            if not isinstance(seq, (list, tuple)):
+                return ("shape", f"the report sweep iterates {seq!r}")
+            if not any(x is ctx["p"] for x in seq):
+                return None  # not visited at all
+            L2, U2, _stop = it.call_node(steps, status_frame())
             if not (_same(it, L2, ctx["L"]) and _same(it, U2, ctx["U"])):
                 return ("bad", [f"a proposal with {what} changes the bounds reported to the actor from "
                                 f"({ctx['L']}, {ctx['U']}) to ({L2}, {U2}): get_status does not stop at the "
                                 "first proposal whose priority is <= the actor's own"])
             return None
 
-        outs = it.explore(steps, make_cut, post_cut)
+        outs = it.explore(visit, make_cut, post_cut)
         _report_orderings(run, "C04.SIB", stat, outs, "the report sweep ignores proposals with priority "
                           "<= the actor's own (strictly higher priorities only)")
         if len(outs) < 5:
@@ -397,7 +478,7 @@ def check_adopt(run: Run, prog: Program, tier: str) -> None:
         bad = []
         if T2 is not ctx["T"]:
             bad.append(f"a proposal without power and bounds changed the target to {T2}")
-        adj = prog.func(f"{BOUNDS}:adjust_exclusion_bounds")
+        adj = bounds_fn(prog, "adjust")
         La, Ua = it.call_func(adj, [L, U, excl], {})
         same = _same(it, L2, L) and _same(it, U2, U)
         carved = isinstance(La, Atom) and isinstance(L2, Atom) and isinstance(U2, Atom) \
@@ -415,10 +496,11 @@ def check_adopt(run: Run, prog: Program, tier: str) -> None:
 
 # ---------------------------------------------------------------------------------------------
 def check_report(run: Run, prog: Program) -> None:
-    fn = prog.func(f"{BASE}:_Report.adjust_to_bounds")
-    clamp = prog.func(f"{BOUNDS}:clamp_to_bounds")
-    run.analysed(fn.qual)
-    run.analysed(clamp.qual)
+    rcls = report_cls(prog)
+    fn = rcls.methods["adjust_to_bounds"]
+    clamp = bounds_fn(prog, "clamp")
+    analysed_reach(run, prog, fn)
+    analysed_reach(run, prog, clamp)
     if len(fn.params) != 2:
         raise AnalysisError(f"{fn.qual}: expected (self, power)")
     it = LinInterp(prog, prog.module(BASE))
@@ -429,7 +511,7 @@ def check_report(run: Run, prog: Program) -> None:
         v, L, U = Atom("v"), Atom("L"), Atom("U")
         it.assume("<=", L, U)
         excl = mk_excl(it, it.choose(2, "exclusion zone present") == 1)
-        rep = Obj("_Report", target_power=None, _inclusion_bounds=Obj("Bounds", lower=L, upper=U),
+        rep = Obj(rcls.name, target_power=None, _inclusion_bounds=Obj("Bounds", lower=L, upper=U),
                   _exclusion_bounds=excl)
         ctx.update(v=v, L=L, U=U, excl=excl)
         return {fn.params[0]: rep, fn.params[1]: v}
@@ -452,7 +534,9 @@ def check_report(run: Run, prog: Program) -> None:
     # ---- get_status hands out the swept bounds together with the system exclusion zone
     sws = stat_sweep(prog)
     st = sws.fn
-    prop = prog.func(f"{BASE}:_Report.bounds")
+    if "bounds" not in rcls.methods:
+        raise AnalysisError(f"{rcls.qual}: the public `bounds` of the report are gone")
+    prop = rcls.methods["bounds"]
     run.analysed(st.qual)
     run.analysed(prop.qual)
     pros = synth("prologue_status", sws.pro, [sws.L, sws.U, sws.X])
@@ -480,8 +564,8 @@ def check_report(run: Run, prog: Program) -> None:
         return {st.params[0]: so, st.params[1]: "ids", st.params[2]: OWN, st.params[3]: sysb}
 
     def post_status(rep: Any) -> Any:
-        if not (isinstance(rep, Obj) and rep.cls == "_Report"):
-            return ("shape", f"get_status returns {rep!r}, not a _Report")
+        if not (isinstance(rep, Obj) and rep.cls == rcls.name):
+            return ("shape", f"get_status returns {rep!r}, not a {rcls.name}")
         inc = rep.fields.get("_inclusion_bounds")
         if not (isinstance(inc, Obj) and {"lower", "upper"} <= set(inc.fields)):
             return ("bad", [f"the report's inclusion bounds are {inc!r}"])
@@ -518,14 +602,14 @@ def check_store(run: Run, prog: Program) -> None:
        C04.RESULT the freshly computed target is returned unless it equals the remembered one and the
                   caller did not insist (only then may the result be None)."""
     ct = prog.func(CTP)
-    calc = prog.func(CALC)
-    run.analysed(ct.qual)
+    calc = find_calc(prog)
+    for h in reach(prog, ct):
+        if h is not calc and h not in reach(prog, calc):
+            run.analysed(h.qual)
     if len(ct.params) != 5 or ct.cls is None:
         raise AnalysisError(f"{ct.qual}: expected (self, component_ids, proposal, system_bounds, must_return_power)")
-    val = prog.resolve_method(ct.cls, "_validate_component_ids")
-    if val is not None:
-        run.analysed(val.qual)
     it = StoreInterp(prog, prog.module(MAT))
+    it.stub = calc.name
     ctx: dict[str, Any] = {}
     scenarios = ["first proposal of the group", "replaces the actor's previous proposal",
                  "joins another actor's proposal", "no new proposal, bucket exists"]
@@ -690,7 +774,7 @@ def structural_controls(prog: Program) -> list[tuple[str, str, str, str, str]]: 
     mat_src = prog.module(MAT).source
 
     # 1. the lower edge of the zone counts as inside the zone
-    ov = prog.func(f"{BOUNDS}:check_exclusion_bounds_overlap")
+    ov = bounds_fn(prog, "overlap")
     edits: list[tuple[ast.AST, str]] = []
     lower_alias: set[str] = set()  # locals that hold the zone's lower edge
     for n in walk_no_nested(ov.node):
@@ -711,11 +795,20 @@ def structural_controls(prog: Program) -> list[tuple[str, str, str, str, str]]: 
                     t = flip_strict(c, i)
                     if t:
                         edits.append((c, t))
+    if not edits:  # the "strictly inside the zone" test lives in a helper: any value against a lower edge
+        for h in reach(prog, ov):
+            for c in compares(list(h.node.body)):
+                for i, a, _op, b in compare_pairs(c):
+                    for x, y in ((a, b), (b, a)):
+                        if isinstance(x, ast.Name) and isinstance(y, ast.Attribute) and y.attr == "lower" and not edits:
+                            t = flip_strict(c, i)
+                            if t:
+                                edits.append((c, t))
     add("zone edge treated as inside", BOUNDS, edits, "C04.KEEP")
 
     # 2. the priority cut of get_status loses / gains the equal priority
     edits = []
-    for c in compares(_scope(prog, sws)):
+    for c in compares(_scope(prog, sws) + [sws.loop.iter] + list(sws.pro)):
         for i, a, _op, b in compare_pairs(c):
             for x, y in ((a, b), (b, a)):
                 if isinstance(x, ast.Attribute) and x.attr == "priority" and _is_name(y, sws.fn.params[2]) and not edits:
@@ -734,20 +827,26 @@ def structural_controls(prog: Program) -> list[tuple[str, str, str, str, str]]: 
 
     # 4. the distance test points the other way
     edits = []
-    for c in compares(_scope(prog, swc)):
-        if len(c.ops) == 1 and not edits and all(
-                any(isinstance(x, ast.BinOp) for x in ast.walk(side)) for side in (c.left, c.comparators[0])):
+    scope_c = _scope(prog, swc)
+    arith = {t.id for st in scope_c for n in walk_no_nested(st) if isinstance(n, ast.Assign)
+             and isinstance(n.value, ast.BinOp) for t in n.targets if isinstance(t, ast.Name)}  # distances held in locals
+
+    def is_arith(side: ast.AST) -> bool:
+        return any(isinstance(x, ast.BinOp) for x in ast.walk(side)) or (isinstance(side, ast.Name) and side.id in arith)
+
+    for c in compares(scope_c):
+        if len(c.ops) == 1 and not edits and is_arith(c.left) and is_arith(c.comparators[0]):
             t = mirror(c, 0)
             if t:
                 edits.append((c, t))
     add("tie test flipped", MAT, edits, "C04.TIE")
 
     # 5. adjust_to_bounds forgets the report's exclusion zone
-    ab = prog.func(f"{BASE}:_Report.adjust_to_bounds")
-    cl = prog.func(f"{BOUNDS}:clamp_to_bounds")
+    ab = report_cls(prog).methods["adjust_to_bounds"]
+    cl = bounds_fn(prog, "clamp")
     edits = []
     for n in walk_no_nested(ab.node):
-        if isinstance(n, ast.Call) and ast.unparse(n.func).endswith("clamp_to_bounds") and not edits:
+        if isinstance(n, ast.Call) and ast.unparse(n.func).split(".")[-1] == cl.name and not edits:
             arg = positional(n, cl.params).get(cl.params[3])
             if arg is not None:
                 edits.append((arg, "None"))
@@ -772,6 +871,13 @@ def structural_controls(prog: Program) -> list[tuple[str, str, str, str, str]]: 
             seg = ast.get_source_segment(mat_src, n)
             if seg:
                 edits.append((n, f"({seg} or {swc.T})"))
+    if not edits and swc.loop.body:
+        # the preference is read inside a helper: seed the same kind of defect at the head of the
+        # iteration instead (every proposal, also an empty one, moves the target)
+        first = swc.loop.body[0]
+        seg = ast.get_source_segment(mat_src, first)
+        if seg:
+            edits.append((first, f"{swc.T} = {swc.L}\n{' ' * first.col_offset}{seg}"))
     add("empty proposal re-clamps the inherited target", MAT, edits, "C04.NOOP")
 
     # 8. an upper-bound-only proposal is treated as a withdrawal
@@ -801,15 +907,22 @@ def structural_controls(prog: Program) -> list[tuple[str, str, str, str, str]]: 
 
     # 10. the changed / unchanged test of the result is inverted
     edits = []
-    for h in reach(prog, ct):
-        if h.name == swc.fn.name:
-            continue
-        for c in compares(list(h.node.body)):
-            if len(c.ops) == 1 and isinstance(c.ops[0], (ast.Eq, ast.NotEq)) and not edits and any(
-                    isinstance(x, ast.Attribute) and x.attr == "_target_power" for x in ast.walk(c)):
-                t = with_op(c, 0, {ast.Eq: ast.NotEq, ast.NotEq: ast.Eq})
-                if t:
-                    edits.append((c, t))
+    fresh = {t.id for n in walk_no_nested(ct.node) if isinstance(n, ast.Assign) and isinstance(n.value, ast.Call)
+             and isinstance(n.value.func, ast.Attribute) and n.value.func.attr == swc.fn.name
+             for t in n.targets if isinstance(t, ast.Name)}  # locals that receive the sweep's result
+    for by_state in (True, False):
+        for h in reach(prog, ct):
+            if h.name == swc.fn.name:
+                continue
+            for c in compares(list(h.node.body)):
+                if len(c.ops) != 1 or not isinstance(c.ops[0], (ast.Eq, ast.NotEq)) or edits:
+                    continue
+                hit = any(isinstance(x, ast.Attribute) and x.attr == "_target_power" for x in ast.walk(c)) if by_state \
+                    else any(isinstance(x, ast.Name) and x.id in fresh for x in (c.left, c.comparators[0]))
+                if hit:
+                    t = with_op(c, 0, {ast.Eq: ast.NotEq, ast.NotEq: ast.Eq})
+                    if t:
+                        edits.append((c, t))
     add("new target returned only when unchanged", MAT, edits, "C04.RESULT")
 
     # 11. the target sweep runs from the lowest to the highest priority
